@@ -10,7 +10,10 @@
     property's own exception and are out of this scope); exceptions confirmed by reading are frozen below;
  R4 historical hiding: every result column handed to the model in a historical evaluation is replaced by 0 where the unit is below
     the reporting threshold, with the same comparator as the unit split (sibling agreement);
- R5 non-modelled units are removed from both model frames (decided by the truth table of C01 / C09; referenced here).
+ R5 non-modelled units are removed from both model frames (decided by the truth table of C01 / C09; referenced here);
+ R6 group-locality: where a group table reads the counted votes of nonreporting units from a second table by position (gaussian
+    aggregate floor inside assign(lambda)), both tables have the same row signature (sorted by the keys, fresh range index), so a
+    partial count only reaches the floor of its own group.
 """
 from __future__ import annotations
 
@@ -54,6 +57,7 @@ def check(ctx):
     _row_locality(ctx)
     _historical(ctx)
     _excluded(ctx)
+    _group_locality(ctx)
 
 
 # ---------------------------------------------------------------------------------------------------
@@ -262,6 +266,20 @@ def _feature_purity(ctx):
                    else f"a results-derived column name reaches this selection: {dirty[0][0]!r} ({dirty[0][1]})")
     ctx.sites("C10.R2", nreads, 4, "literal column reads in the featurizer")
     ctx.sites("C10.R2.symbolic", nsym, 8, "computed column selections in the featurizer")
+
+
+def _group_locality(ctx):
+    """R6: at group level a partial count may only reach the floor of ITS OWN group.  The gaussian aggregate reads the counted
+    votes of nonreporting units from a second table inside assign(lambda); pandas pairs rows by index label, so the pairing is
+    by group only when both tables list the same groups in the same order (decided by the frame algebra's row signatures)."""
+    from ..frames import Frames
+    from .c01 import model_builder
+    from .c03 import floor_alignment
+    mb = model_builder(ctx)
+    gc = ctx.repo.cls(GEM, "GaussianElectionModel")
+    gf = ctx.fn(GEM, "GaussianElectionModel.get_aggregate_prediction_intervals")
+    gs = mb.summarize(gf, self_cls=gc)
+    floor_alignment(ctx, "C10.R6.group-aligned", mb, Frames(mb), gf, gs)
 
 
 def _row_locality(ctx):
